@@ -17,11 +17,15 @@ theorem produce_length {env : Env} {cfg : Cfg} {n n' : Node} {ts : Int} {perm : 
   rw [hl]
   simp [SL.confirmLast_blocks hc]
 
-/-- **one step.** an extended operation behaves as one of the sequential operations it is made of -/
+theorem admitTx_led (env : Env) (cfg : Cfg) (n : Node) (tx : Tx) : (n.admitTx env cfg tx).led = n.led := by
+  unfold Node.admitTx
+  split <;> rfl
+
+/-- **one step.** an extended operation behaves as a sequential run of (some of) the operations it is made of -/
 theorem stepX_shadow (env : Env) (cfg : Cfg) (n : Node) (x : OpX) :
-    ∃ o ∈ x.shadows, stepX env cfg n x = step env cfg n o := by
+    ∃ os : List Op, (∀ o ∈ os, o ∈ x.shadows) ∧ stepX env cfg n x = run env cfg n os := by
   cases x with
-  | base o => exact ⟨o, List.mem_singleton.mpr rfl, rfl⟩
+  | base o => exact ⟨[o], by simp [OpX.shadows], rfl⟩
   | syncTick now resps pick ts perm rid =>
     simp only [stepX, OpX.shadows]
     by_cases hlen : (step env cfg n (.tick ts perm rid)).led.blocks.length = n.led.blocks.length
@@ -40,28 +44,60 @@ theorem stepX_shadow (env : Env) (cfg : Cfg) (n : Node) (x : OpX) :
             omega
         · rfl
       rw [if_pos hlen, hn1]
-      refine ⟨.sync now resps pick, by simp, ?_⟩
-      simp only [step]
+      refine ⟨[.sync now resps pick], by simp, ?_⟩
+      simp only [run, List.foldl_cons, List.foldl_nil, step]
       cases (Sync.outcomes env cfg n.led now resps)[pick]? <;> rfl
     · rw [if_neg hlen]
-      exact ⟨.tick ts perm rid, by simp, rfl⟩
+      exact ⟨[.tick ts perm rid], by simp, rfl⟩
+  | syncSubmit now resps pick tx =>
+    refine ⟨[.submit tx, .sync now resps pick], by simp [OpX.shadows], ?_⟩
+    simp only [stepX, run, List.foldl_cons, List.foldl_nil, step, admitTx_led]
+    cases (Sync.outcomes env cfg n.led now resps)[pick]? <;> rfl
 
-/-- **histories.** every extended history is simulated, step by step, by a sequential history whose operations
-    are shadows of the extended ones (same ticks, same sync rounds, same submissions) -/
+/-- the interleaved tick: exactly one of the two -/
+theorem stepX_syncTick_cases (env : Env) (cfg : Cfg) (n : Node) (now : Int) (resps : List Resp) (pick : Nat)
+    (ts : Int) (perm : List Tx) (rid : String) :
+    stepX env cfg n (.syncTick now resps pick ts perm rid) = step env cfg n (.tick ts perm rid) ∨
+    stepX env cfg n (.syncTick now resps pick ts perm rid) = step env cfg n (.sync now resps pick) := by
+  simp only [stepX]
+  by_cases hlen : (step env cfg n (.tick ts perm rid)).led.blocks.length = n.led.blocks.length
+  · right
+    have hn1 : step env cfg n (.tick ts perm rid) = n := by
+      simp only [step] at hlen ⊢
+      split
+      · rename_i hp
+        rw [if_pos hp] at hlen
+        cases hprod : n.produce env cfg ts perm rid with
+        | none => rfl
+        | some n' =>
+          rw [hprod] at hlen
+          simp only [Option.getD_some] at hlen
+          have := produce_length hprod
+          omega
+      · rfl
+    rw [if_pos hlen, hn1]
+    simp only [step]
+    cases (Sync.outcomes env cfg n.led now resps)[pick]? <;> rfl
+  · left
+    rw [if_neg hlen]
+
+/-- **histories.** every extended history is simulated by a sequential history whose operations are shadows of the
+    extended ones (same ticks, same sync rounds, same submissions) -/
 theorem runX_simulated (env : Env) (cfg : Cfg) (xs : List OpX) (n : Node) :
-    ∃ ops : List Op, runX env cfg n xs = run env cfg n ops ∧ ops.length = xs.length ∧
+    ∃ ops : List Op, runX env cfg n xs = run env cfg n ops ∧
       ∀ o ∈ ops, ∃ x ∈ xs, o ∈ x.shadows := by
   induction xs generalizing n with
-  | nil => exact ⟨[], rfl, rfl, by simp⟩
+  | nil => exact ⟨[], rfl, by simp⟩
   | cons x xs ih =>
-    obtain ⟨o, ho, hstep⟩ := stepX_shadow env cfg n x
-    obtain ⟨ops, hrun, hlen, hsh⟩ := ih (stepX env cfg n x)
-    refine ⟨o :: ops, ?_, by simp [hlen], ?_⟩
-    · show runX env cfg (stepX env cfg n x) xs = run env cfg (step env cfg n o) ops
-      rw [← hstep]; exact hrun
+    obtain ⟨os, hos, hstep⟩ := stepX_shadow env cfg n x
+    obtain ⟨ops, hrun, hsh⟩ := ih (stepX env cfg n x)
+    refine ⟨os ++ ops, ?_, ?_⟩
+    · show runX env cfg (stepX env cfg n x) xs = run env cfg n (os ++ ops)
+      rw [hrun, hstep]
+      simp [run, List.foldl_append]
     · intro o' ho'
-      rcases List.mem_cons.mp ho' with rfl | h
-      · exact ⟨x, List.mem_cons_self, ho⟩
+      rcases List.mem_append.mp ho' with h | h
+      · exact ⟨x, List.mem_cons_self, hos o' h⟩
       · obtain ⟨x', hx', hs'⟩ := hsh o' h
         exact ⟨x', List.mem_cons_of_mem _ hx', hs'⟩
 
@@ -70,7 +106,7 @@ theorem runX_simulated (env : Env) (cfg : Cfg) (xs : List OpX) (n : Node) :
 theorem runX_simulated_with (env : Env) (cfg : Cfg) (P : Op → Prop) (xs : List OpX) (n : Node)
     (hP : ∀ x ∈ xs, ∀ o ∈ x.shadows, P o) :
     ∃ ops : List Op, runX env cfg n xs = run env cfg n ops ∧ ∀ o ∈ ops, P o := by
-  obtain ⟨ops, hrun, _, hsh⟩ := runX_simulated env cfg xs n
+  obtain ⟨ops, hrun, hsh⟩ := runX_simulated env cfg xs n
   refine ⟨ops, hrun, ?_⟩
   intro o ho
   obtain ⟨x, hx, hs⟩ := hsh o ho
